@@ -478,6 +478,20 @@ func RunCrashScenario(sc *Scenario) (vd *Verdict) {
 				fail(v, i)
 				return
 			}
+		case "moveBackupLocation":
+			// the hub is stopped and started with its backups pointed at a new, empty location: the next run has to put
+			// everything there
+			mgmt = true
+			if r.backupDir != "" && !r.locationForeign {
+				old := r.backupDir
+				r.backupDir, r.backupMgr, r.atBackup = "", nil, nil
+				if v := r.restart(); v != nil {
+					fail(v, i)
+					return
+				}
+				os.RemoveAll(old)
+				r.Stats["backup_location_changes"]++
+			}
 		case "fullsyncStart":
 			// a full sync is started on a dataset and left open (a job or client that is still at it, or has given up)
 			mgmt = true
